@@ -1,0 +1,99 @@
+//go:build verif
+
+package certmagic
+
+import (
+	"context"
+	"crypto/x509"
+	"sort"
+	"time"
+
+	"golang.org/x/crypto/ocsp"
+)
+
+// Verification hooks (build tag "verif" only) for the maintenance property (C05):
+// read-only snapshots of the job manager and of a certificate cache, and a setter for
+// the retry back-off table so that failing background jobs cycle in milliseconds; for the
+// "as long as it has not been revoked" clause, a setter that marks a cached certificate's OCSP
+// status as Revoked (what updateOCSPStaples records when a responder says so) and a wrapper of
+// the OCSP maintenance pass. No existing code is changed.
+
+// VerifMaintainSetRetryIntervals replaces the package-level retryIntervals table. It must be
+// called while no background job is running (doWithRetry reads the table without a lock).
+// It returns the previous table.
+func VerifMaintainSetRetryIntervals(iv []time.Duration) []time.Duration {
+	old := retryIntervals
+	retryIntervals = append([]time.Duration(nil), iv...)
+	return old
+}
+
+// VerifMaintainJobs is a snapshot of the package-level job manager.
+type VerifMaintainJobs struct {
+	Queue         []string // names of the queued (not yet started) jobs, in order ("" = unnamed)
+	Names         []string // the dedup set, sorted
+	ActiveWorkers int
+}
+
+// VerifMaintainJobsSnapshot returns the state of the job manager under its mutex.
+func VerifMaintainJobsSnapshot() VerifMaintainJobs {
+	jm.mu.Lock()
+	defer jm.mu.Unlock()
+	s := VerifMaintainJobs{ActiveWorkers: jm.activeWorkers}
+	for _, j := range jm.queue {
+		s.Queue = append(s.Queue, j.name)
+	}
+	for n := range jm.names {
+		s.Names = append(s.Names, n)
+	}
+	sort.Strings(s.Names)
+	return s
+}
+
+// VerifMaintainCachedCert describes one entry of Cache.cache.
+type VerifMaintainCachedCert struct {
+	Hash      string
+	Names     []string
+	Managed   bool
+	IssuerKey string
+	Leaf      *x509.Certificate
+	Revoked   bool // cert.ocsp says Revoked
+}
+
+// VerifMaintainCacheSnapshot returns the entries of the cache map (sorted by hash) and a copy
+// of the name index, read under the cache's read lock.
+func VerifMaintainCacheSnapshot(c *Cache) ([]VerifMaintainCachedCert, map[string][]string) {
+	c.mu.RLock()
+	defer c.mu.RUnlock()
+	certs := make([]VerifMaintainCachedCert, 0, len(c.cache))
+	for h, cert := range c.cache {
+		certs = append(certs, VerifMaintainCachedCert{Hash: h, Names: append([]string(nil), cert.Names...),
+			Managed: cert.managed, IssuerKey: cert.issuerKey, Leaf: cert.Leaf,
+			Revoked: cert.ocsp != nil && cert.ocsp.Status == ocsp.Revoked})
+	}
+	sort.Slice(certs, func(i, j int) bool { return certs[i].Hash < certs[j].Hash })
+	idx := make(map[string][]string, len(c.cacheIndex))
+	for n, hs := range c.cacheIndex {
+		idx[n] = append([]string(nil), hs...)
+	}
+	return certs, idx
+}
+
+// VerifMaintainMarkRevoked sets the OCSP status of the cache entry with the given hash to
+// Revoked with the given reason code (as updateOCSPStaples does with a responder's answer).
+// It reports whether the entry exists.
+func VerifMaintainMarkRevoked(c *Cache, hash string, reason int) bool {
+	c.mu.Lock()
+	defer c.mu.Unlock()
+	cert, ok := c.cache[hash]
+	if !ok {
+		return false
+	}
+	now := time.Now()
+	cert.ocsp = &ocsp.Response{Status: ocsp.Revoked, RevocationReason: reason, RevokedAt: now.Add(-time.Minute),
+		ThisUpdate: now.Add(-time.Minute), NextUpdate: now.Add(24 * time.Hour)}
+	c.cache[hash] = cert
+	return true
+}
+
+// VerifMaintainUpdateOCSPStaples runs one OCSP maintenance pass over the cache.
+func VerifMaintainUpdateOCSPStaples(ctx context.Context, c *Cache) { c.updateOCSPStaples(ctx) }
